@@ -398,7 +398,7 @@ def mutate(obj, prop):
     if type(v).__name__ == "Xray":
         t = v.sftable
         if t is not None:
-            t[1][10] = 777.0
+            t[1][:] += 1000.0      # the whole f1 column, so that every energy is affected
             return "Xray-table"
         return "Xray-notable"
     v.mutated = 1
@@ -435,8 +435,8 @@ def mutable_ids(table):
             return
         if id(o) in seen or depth > 6:
             return
-        if type(o).__name__ == "Neutron" and vars(o) == {"_number_density": None}:
-            label = label + ":placeholder"
+        if any(o is cls.__dict__.get("neutron") for cls in (core.Element, core.Isotope)):
+            label = label + ":placeholder"      # the class-level default served to atoms without data
         seen[id(o)] = label
         keep.append(o)
         if isinstance(o, dict):
